@@ -137,11 +137,22 @@ def creditRun : Int → List Nat → Int × Nat
     let r := creditRun (fudgeUpdate f len).1 rest
     (r.1, r.2 + (if (fudgeUpdate f len).2 then 16384 else 0))
 
-/-- h2_discard_headers() -/
-def discardHeaders (c : H2Conn) : Res :=
-  if c.goaway > 0 then (c, []) else
+/-- the counting part of h2_discard_headers(): too many discarded header blocks end the
+    connection -/
+def discardCount (c : H2Conn) : Res :=
   let c := { c with nDiscarded := c.nDiscarded + 1 }
   if c.nDiscarded > 32 then sendGoaway c E.enhanceCalm else (c, [])
+
+/-- h2_discard_headers(): the block of a HEADERS frame that opens no stream is still HPACK
+    decoded (the decoder state is shared by the connection) unless an error GOAWAY is out;
+    a block that cannot be decoded is a connection error (h2_discard_headers_frame(), c908cdc) -/
+def discardHeaders (c : H2Conn) (kind : HdrKind) : Res :=
+  if c.goaway > 0 then (c, []) else
+  match kind with
+  | .hpackBad =>
+    ((sendGoaway (discardCount c).1 E.compression).1,
+     (discardCount c).2 ++ (sendGoaway (discardCount c).1 E.compression).2)
+  | _ => discardCount c
 
 /-- h2_recv_end_data() -/
 def recvEndData (c : H2Conn) (s : Strm) (alen : Nat) : H2Conn × List Out × Bool :=
@@ -286,19 +297,19 @@ def Res.andThen (r : Res) (f : H2Conn → Res) : Res := ((f r.1).1, r.2 ++ (f r.
 /-- HEADERS on a stream id that is not new: trailers (h2_recv_trailers_r) -/
 def recvTrailers (c : H2Conn) (sid : Nat) (kind : HdrKind) (endStream : Bool) : Res :=
   match findStrm c sid with
-  | none => (sendGoaway c E.protocol).andThen discardHeaders
+  | none => (sendGoaway c E.protocol).andThen (discardHeaders · kind)
   | some s =>
     if s.st ≠ .open ∧ s.st ≠ .hcLocal then
-      Res.andThen (rstState c sid, [.rst sid E.streamClosed]) discardHeaders
+      Res.andThen (rstState c sid, [.rst sid E.streamClosed]) (discardHeaders · kind)
     else if !endStream then
-      Res.andThen (rstState c sid, [.rst sid E.protocol]) discardHeaders
+      Res.andThen (rstState c sid, [.rst sid E.protocol]) (discardHeaders · kind)
     else
       let e := recvEndData c s 0
       if e.2.2 then
         (match kind with
          | .hpackBad => Res.andThen (e.1, e.2.1) fun c => sendGoaway c E.compression
          | _ => (e.1, e.2.1))
-      else Res.andThen (e.1, e.2.1) discardHeaders
+      else Res.andThen (e.1, e.2.1) (discardHeaders · kind)
 
 /-- the stream record h2_init_stream() + h2_recv_headers() create -/
 def mkStrm (c : H2Conn) (sid : Nat) (endStream : Bool) (status body : Nat) (reqLen : Int) (incr file : Bool) : Strm :=
@@ -359,8 +370,8 @@ def recvHeaders (c : H2Conn) (sid : Nat) (kind : HdrKind) (endStream : Bool) (de
   if dep = some sid ∧ sid > c.cid then
     ((sendGoaway c E.protocol).1, [.rst sid E.protocol] ++ (sendGoaway c E.protocol).2)
   else if sid ≤ c.cid then recvTrailers c sid kind endStream
-  else if c.goaway ≠ 0 then discardHeaders c
-  else if c.streams.length ≥ Extracted.h2MaxStreams then (refuseStream c sid).andThen discardHeaders
+  else if c.goaway ≠ 0 then discardHeaders c kind
+  else if c.streams.length ≥ Extracted.h2MaxStreams then (refuseStream c sid).andThen (discardHeaders · kind)
   else newStream c sid kind endStream
 
 /-- one complete frame of h2_parse_frames(); nothing is parsed after an error GOAWAY -/
